@@ -52,6 +52,12 @@ func genDeliveryCase(t *rapid.T, secure bool) DeliveryCase {
 	nr := rapid.IntRange(1, 3).Draw(t, "nreaders")
 	for i := 0; i < nr; i++ {
 		c.Readers = append(c.Readers, rapid.SampledFrom(protos).Draw(t, "reader_proto"))
+		skip := 0
+		if nm >= 2 && rapid.IntRange(0, 2).Draw(t, "partial_setup") == 0 {
+			// a reader that sets up only some of the medias
+			skip = rapid.IntRange(1, 1<<nm-2).Draw(t, "skip_mask")
+		}
+		c.Skip = append(c.Skip, skip)
 	}
 	c.Queue = 1 << rapid.IntRange(3, 8).Draw(t, "queue_exp")
 	// history
@@ -62,15 +68,29 @@ func genDeliveryCase(t *rapid.T, secure bool) DeliveryCase {
 	ts := rapid.Uint32().Draw(t, "ts0")
 	for i := 0; i < na; i++ {
 		a := DAction{}
-		switch rapid.IntRange(0, 19).Draw(t, "akind") {
+		switch rapid.IntRange(0, 22).Draw(t, "akind") {
+		case 22:
+			// keep-alive requests of a playing reader while a burst is written to it
+			a.Kind = "req-burst"
+			a.N = rapid.IntRange(2, 2*c.Queue+8).Draw(t, "burst_n")
+			if a.N > 300 {
+				a.N = 300
+			}
 		case 0, 1:
 			a.Kind = "join"
 		case 2:
 			a.Kind = "pause"
-		case 3:
+		case 3, 20:
 			a.Kind = "play"
 		case 4:
 			a.Kind = "leave"
+		case 21:
+			// pausing or leaving while a burst is being written (the queue hand-over happens with packets in flight)
+			a.Kind = rapid.SampledFrom([]string{"pause-burst", "pause-burst", "leave-burst"}).Draw(t, "abrupt")
+			a.N = rapid.IntRange(2, 2*c.Queue+8).Draw(t, "burst_n")
+			if a.N > 300 {
+				a.N = 300
+			}
 		case 5:
 			a.Kind = "burst"
 			a.N = rapid.IntRange(2, 2*c.Queue+8).Draw(t, "burst_n")
@@ -119,11 +139,23 @@ func deliveryLabels(c DeliveryCase, st *dStats) []string {
 	if st.JoinFailed > 0 {
 		l = append(l, "join-failed")
 	}
+	for _, s := range c.Skip {
+		if s != 0 {
+			l = append(l, "reader-with-partial-setup")
+			break
+		}
+	}
+	if st.Abrupt > 0 {
+		l = append(l, "paused-or-left-during-burst")
+	}
+	if st.ReqsDuringBurst > 0 {
+		l = append(l, "requests-answered-during-burst")
+	}
 	return l
 }
 
 func checkDelivery(rt *rapid.T, c DeliveryCase) {
-	st, err := pbt.Safe(runDelivery, c)
+	st, err := pbt.SafeJ("C01", "delivery", runDelivery, c)
 	if st == nil {
 		st = &dStats{}
 	}
